@@ -342,6 +342,7 @@ type step struct {
 	fail   bool  // E step: the source starts (true) / stops failing
 	lat    bool  // passive unhealthy_latency configured (latencyLimit)
 	act    bool  // active health checks run every few milliseconds (thresholds out of reach: they must not change anything)
+	closeS bool  // stream_close_delay not set: Cleanup closes upgraded connections at once
 	areal  bool  // active health checks driven by K steps, thresholds aP / aF
 	aP, aF int
 	hok    bool // H step: the health endpoint passes (true) / fails
@@ -429,11 +430,15 @@ func parseStep(s string, K int) (st step, ok bool) {
 			// the background, 3 = both (then the ninth field may be 0)
 			x, okx := num(f[8])
 			l, okl := num(f[9])
-			if !okx || !okl || x > 100 || l < 1 || l > 7 {
+			if !okx || !okl || x > 100 || l < 1 || l > 8 {
 				return st, false
 			}
 			if l <= 3 {
 				st.x, st.lat, st.act = x, l == 1 || l == 3, l >= 2
+			} else if l == 8 {
+				// 8: stream_close_delay is not set (the default): unloading the configuration closes
+				// its upgraded connections at once
+				st.x, st.closeS = x, true
 			} else {
 				// 4..7: active health checks driven round by round by the schedule (K steps), with
 				// passes = 1 + (l-4)/2 and fails = 1 + (l-4)%2; one Host per check: distinct addresses
@@ -624,6 +629,7 @@ type reqSt struct {
 	since     time.Time // when it was parked
 	w         *syncWriter
 	ws        bool // it asked for a protocol upgrade
+	wsOpen    bool // …and its upgraded connection is open
 	streaming bool // header and first part of the body have arrived, the rest is pending
 	aged      bool // it was already parked while a slow answer was being waited for: its round trip is slow too
 }
@@ -883,6 +889,7 @@ func (k *kase) handlerJSON(st step, bad bool) []byte {
 		"load_balancing": lb,
 		"transport":      map[string]any{"protocol": "http", "keep_alive": map[string]any{"enabled": false}},
 		// upgraded connections survive the unloading of their configuration for longer than any case
+		// (unless the step says the option is not set, see below)
 		"stream_close_delay": int64(time.Hour),
 		"handle_response": []any{
 			map[string]any{"match": map[string]any{"headers": map[string]any{"X-Verif": []string{"panic"}}},
@@ -890,6 +897,10 @@ func (k *kase) handlerJSON(st step, bad bool) []byte {
 			map[string]any{"match": map[string]any{"headers": map[string]any{"X-Verif": []string{"err"}}},
 				"routes": []any{map[string]any{"handle": []any{map[string]any{"handler": "verif_c09_probe", "mode": "err"}}}}},
 		},
+	}
+	if st.closeS {
+		delete(m, "stream_close_delay")
+		k.tag("streams-closed-on-unload-configured")
 	}
 	if st.dyn {
 		sups := []any{}
@@ -933,8 +944,16 @@ func (k *kase) handlerJSON(st step, bad bool) []byte {
 		if hc == nil {
 			hc = map[string]any{}
 		}
-		hc["active"] = map[string]any{"uri": "/verif-hc", "interval": int64(time.Hour),
-			"timeout": int64(2 * time.Second), "passes": st.aP, "fails": st.aF}
+		ac := map[string]any{"uri": "/verif-hc", "interval": int64(time.Hour), "timeout": int64(2 * time.Second)}
+		// a threshold of 1 is the documented default: leave the field out, so that the defaulting
+		// in ActiveHealthChecks.Provision is what sets it
+		if st.aP != 1 {
+			ac["passes"] = st.aP
+		}
+		if st.aF != 1 {
+			ac["fails"] = st.aF
+		}
+		hc["active"] = ac
 		m["health_checks"] = hc
 		k.tag("active-health-checks-modelled")
 	}
@@ -972,7 +991,7 @@ func (k *kase) handlerJSON(st step, bad bool) []byte {
 // as a JSON object; ok=false if the step cannot be written as Caddyfile (an upstream's own
 // max_requests; passive checks present but with no option set).
 func (k *kase) viaCaddyfile(st step) (map[string]any, bool) {
-	if st.dyn || st.act || st.areal || st.x > 0 || (st.p && st.d == 0 && st.m == 0 && st.q == 0 && st.s == 0 && !st.lat) {
+	if st.dyn || st.act || st.x > 0 || (st.p && st.d == 0 && st.m == 0 && st.q == 0 && st.s == 0 && !st.lat) {
 		return nil, false
 	}
 	var b strings.Builder
@@ -1009,7 +1028,19 @@ func (k *kase) viaCaddyfile(st step) (map[string]any, bool) {
 			fmt.Fprintf(&b, "\tunhealthy_latency %s\n", latencyLimit.String())
 		}
 	}
-	b.WriteString("\tstream_close_delay 1h\n\ttransport http {\n\t\tkeepalive off\n\t}\n}\n")
+	if st.areal {
+		b.WriteString("\thealth_uri /verif-hc\n\thealth_interval 1h\n\thealth_timeout 2s\n")
+		if st.aP != 1 {
+			fmt.Fprintf(&b, "\thealth_passes %d\n", st.aP)
+		}
+		if st.aF != 1 {
+			fmt.Fprintf(&b, "\thealth_fails %d\n", st.aF)
+		}
+	}
+	if !st.closeS {
+		b.WriteString("\tstream_close_delay 1h\n")
+	}
+	b.WriteString("\ttransport http {\n\t\tkeepalive off\n\t}\n}\n")
 	h := new(reverseproxy.Handler)
 	if err := h.UnmarshalCaddyfile(caddyfile.NewTestDispenser(b.String())); err != nil {
 		k.infra = "caddyfile: " + err.Error()
@@ -1133,9 +1164,45 @@ func (k *kase) activeRound(c *cfgGen) {
 }
 
 func (k *kase) unload(c *cfgGen) {
-	if !c.canceled {
-		c.canceled = true
-		c.cancel()
+	if c.canceled {
+		return
+	}
+	c.canceled = true
+	c.cancel()
+	if !c.st.closeS {
+		return
+	}
+	// stream_close_delay is not set: Cleanup has closed the upgraded connections of this
+	// configuration; their requests end now (in any order)
+	pending := map[int]*reqSt{}
+	for _, r := range k.reqs {
+		if r.cfg == c && r.parked && r.streaming && r.wsOpen {
+			pending[r.id] = r
+		}
+	}
+	timeout := time.After(8 * time.Second)
+	for len(pending) > 0 {
+		select {
+		case e := <-k.ev:
+			r, ok := pending[e.rid]
+			if !ok || e.arrived {
+				k.infra = fmt.Sprintf("unexpected event for request %d while its configuration is being unloaded", e.rid)
+				continue
+			}
+			if e.result != "ok" {
+				k.fail("stream-closed-on-unload-did-not-end-normally", fmt.Sprintf("request %d: upgraded connection closed by Cleanup, handler returned %q", r.id, e.result))
+			}
+			r.parked, r.streaming, r.done = false, false, true
+			delete(pending, e.rid)
+			k.tag("stream-closed-on-unload")
+		case <-timeout:
+			for id := range pending {
+				k.fail("stream-not-closed-on-unload", fmt.Sprintf("stream_close_delay is not set, the configuration was unloaded, but the upgraded connection of request %d is still open", id))
+				pending[id].parked, pending[id].streaming, pending[id].done = false, false, true
+				pending[id].cancel()
+			}
+			pending = map[int]*reqSt{}
+		}
 	}
 }
 
@@ -1549,11 +1616,22 @@ func (p *prop) runSched(K int, src stepSource, U time.Duration, cf bool) (impl s
 						if n, _ := cli.Read(b[:]); n == 1 {
 							ev = "S"
 						}
+						cli.SetReadDeadline(time.Time{})
+						go func() {
+							// the client keeps reading (e.g. the close frame Cleanup sends)
+							buf := make([]byte, 64)
+							for {
+								if _, err := cli.Read(buf); err != nil {
+									return
+								}
+							}
+						}()
 					case <-time.After(8 * time.Second):
 					}
 					if ev != "S" {
 						k.infra = fmt.Sprintf("request %d: the upgraded connection did not open", r.id)
 					}
+					r.wsOpen = true
 					k.tag("upgraded-connection")
 				}
 				if r.cfg.st.lat && r.cfg.st.p && !r.aged && time.Since(r.since) > latencyLimit/2 {
